@@ -164,7 +164,12 @@ var defaultAllowedParameters = []string{"grant_type", "response_type", "scope", 
 func (a *Request) Sanitize(allowedParameters []string) Requester {
 	b := new(Request)
 	allowed := map[string]bool{}
-	for _, v := range append(allowedParameters, defaultAllowedParameters...) {
+	// (not append(allowedParameters, ...): the caller's slice is usually a Config value shared by all requests,
+	// and appending would write into its spare capacity)
+	for _, v := range allowedParameters {
+		allowed[v] = true
+	}
+	for _, v := range defaultAllowedParameters {
 		allowed[v] = true
 	}
 
